@@ -132,6 +132,28 @@ add('C14', 'runtime monitoring with fault enumeration: byte comparison against a
     'DESIGN.md section 3, C14', category='fault_enumeration')
 
 
+add('C15', 'runtime monitoring: paired exchanges with/without each built-in middleware (alone and in random stacks) over a scenario '
+           'application with every response kind; gzip-specific header/length/Vary assertions',
+    'Twelve middleware configurations alone and 60 random stacks of 2-4 per shard over 26 request kinds x methods x nine Accept-Encoding '
+    'values: status, decoded body and Location must equal those of the bare application (18 000 pairs per quick run); compressed bodies '
+    'must decompress to the original with Content-Length = bytes sent and Vary: Accept-Encoding; non-accepting clients get identical bytes.',
+    'DESIGN.md section 3, C15')
+add('C16', 'runtime monitoring: request histories with a model cookie jar, the set of all server-issued payloads, a virtual clock '
+           'patched into the middleware and its dependency, and twelve tamper classes',
+    '3 000 histories per quick run (1-3 clients, session/never/numeric expiry, custom names): an intact unexpired cookie must present '
+    'exactly the stored data; anything else must present nothing - or exactly a payload the server itself issued and that is unexpired - '
+    'and must never produce an error response.',
+    'DESIGN.md section 3, C16')
+add('C19', 'runtime monitoring: stats reports compared with a model counter fed by the endpoints\' own reach log; icontract class '
+           'invariant plus shadow model on the real Reservoir under long add/resize histories',
+    'Part A: 500 histories of <=60 steps over 19 request kinds (200, redirects, raised/returned 4xx, uncaught, 404/405 on the catch-all, '
+    'non-breaking fallthrough, slash redirects) interleaved with reads of the embedded stats application and resets. Part B: 11 000 '
+    'Reservoir histories with capacities 1-12 incl. shrink-then-grow, bursts up to 40x capacity, per-history random.seed, one run '
+    'filling the default 16 384-slot store; size<=capacity is an icontract invariant evaluated after every public method, exact counts '
+    'and provenance by a shadow model.',
+    'DESIGN.md section 3, C19')
+
+
 def main():
     present = sorted(p for p in CHECKS if os.path.exists(os.path.join(HERE, 'vt', 'checks', p + '.py')))
     checks = []
